@@ -157,7 +157,7 @@ func c11Run(c *Ctx) {
 		ly := gen.BuildTIFF(g, rec, gen.LayoutOpts{Foreign: 3})
 		tiff := ly.Encode(big).Bytes
 		x := c.L("gen:x")
-		h := gen.DrawHEIFOpts(g, tiff, g.Bool(), gen.HEIFOpts{ExtraIloc: x.Intn(3), Brands: x.Intn(13), InfeVariants: x.Intn(4)})
+		h := gen.DrawHEIFOpts(g, tiff, g.Bool(), gen.HEIFOpts{ExtraIloc: x.Intn(3), Brands: x.Intn(13), InfeVariants: x.Intn(4), InfeVersions: infeVersions(c.L("gen:y"))})
 		data, top = h.Bytes, h.Top
 		bo, first := tiffHdr(tiff)
 		mdatEnd := 0
@@ -375,7 +375,7 @@ func init() {
 		Name: "trees", Weight: 1,
 		N: func(tier string, seed uint64) uint64 {
 			if tier == "thorough" {
-				return 3000000
+				return 30000000
 			}
 			return 150000
 		},
